@@ -36,6 +36,9 @@ func c08(c *Ctx) {
 	ownership.ReadFullExact(c.P, r)
 	extrarules.FirstMatchWins(c.P, r, "autoDetectPacketSize")
 	extrarules.DiscardEqualsPeeked(c.P, r)
+	// the end of the stream looks the same whether it is met while reading packets or during packet size detection: the
+	// sentinel is never wrapped on the way up (E4c)
+	errflow.E4c(c.P, r, "ErrNoMorePackets")
 	// packets of 188+k bytes yield the same packets: parsePacket on the reference encodings of whole packets with k = 0, 4
 	// and 16 extra bytes after the sync byte (payload only, adaptation field + payload, adaptation field only, one-byte
 	// adaptation field) delivers the same fields and the same payload bytes (A4 pair spec/ts-packet of C11)
